@@ -1,6 +1,7 @@
 import Driver.Util
 import OtelVerif.Model.Histogram
 import OtelVerif.Model.SeriesStore
+import OtelVerif.Model.HistogramStore
 namespace Driver
 open Otel Otel.Hist Otel.Series
 
@@ -103,7 +104,7 @@ def handleSdk : List String → String
       | some ops =>
         -- the overflow key is never used here (at most 11 attribute sets, default limit)
         let c : Cfg Nat Point Rat :=
-          { ag := { new := new k cfg, add := aggregate k, merge := merge k }, ovf := 1000000, limit := 2000, temps := temps, iter := id }
+          { ag := histAgg k cfg, ovf := 1000000, limit := 2000, temps := temps, iter := id }
         let outs := (Store.run c (Store.init c) ops).2
         if outs.isEmpty then "-" else " ; ".intercalate (outs.map fun o => showOut sf o.2)
       | none => "bad-op"
